@@ -31,5 +31,9 @@ def run(ctx):
                                                  "-postcompression", "lz4"] + ex, False, "mixed-compression"))
     plans.append(("mixed-version-last-3x1", ["-random", n(120, 800), "-nodes", "3", "-numconns", "1", "-clients", "2", "-workers", "3", "-round", "60",
                                              "-postcompression", "v3"] + ex, False, "mixed-version"))
+    # nodes that forget a statement after two executions, many clients: re-preparations of the same statement run on
+    # several connections at the same moment
+    plans.append(("reprepare-storm-3x2", ["-random", n(700, 4000), "-kinds", "execute", "-nodes", "3", "-numconns", "2", "-clients", "8", "-workers", "8", "-round", "700",
+                                          "-evict", "2", "-okbias", "8", "-nodrops"], False, "storm"))
     plans.append(("gated-d11", ["-scenario", "d11"], "gates", "gated-reprepare-send-fails"))
     rf.run_property(ctx, "C08", plans, scenario_filter=lambda s: "unprepared" in s["outcomes"], nscen=300)
